@@ -395,6 +395,54 @@ def _state_violations(res, bad, entry_of):
 
 
 # --------------------------------------------------------------------------
+# whole-data-set amplitude sweep: op(a X) == a^k op(X) for a = 2^-60 .. 2^60 (exact scalings), relative tolerance only
+# --------------------------------------------------------------------------
+
+SWEEP = [Fraction(1, 2 ** 60), Fraction(1, 2 ** 30), Fraction(1, 2 ** 9), Fraction(2 ** 20), Fraction(2 ** 60)]
+
+
+def _sweep(build_scaled, ops):
+    """ops: name -> (function of the object, degree k).  Results on X and on a X for every a of SWEEP."""
+    res = {}
+    for nm, (f, k) in ops.items():
+        res[nm] = {"k": k, "base": _call(lambda f=f: f(build_scaled(Fraction(1)))),
+                   "scaled": {rs(a): _call(lambda f=f, a=a: f(build_scaled(a))) for a in SWEEP}}
+    return res
+
+
+def _rel_same(x, y, rtol=1e-13):
+    """nested equality with a purely RELATIVE tolerance per number (no absolute floor), NaN equal to NaN"""
+    if isinstance(x, dict) or isinstance(y, dict):
+        return isinstance(x, dict) and isinstance(y, dict) and x.get("error") == y.get("error")
+    if isinstance(x, (list, tuple)):
+        return isinstance(y, (list, tuple)) and len(x) == len(y) and all(_rel_same(u, v, rtol) for u, v in zip(x, y))
+    if isinstance(x, (int, float)) and isinstance(y, (int, float)):
+        if math.isnan(x) or math.isnan(y):
+            return math.isnan(x) and math.isnan(y)
+        return x == y or abs(x - y) <= rtol * max(abs(x), abs(y))
+    return x == y
+
+
+def _times(v, c):
+    if isinstance(v, (list, tuple)):
+        return [_times(u, c) for u in v]
+    return v * c if isinstance(v, (int, float)) else v
+
+
+def _sweep_violations(res, bad, entry_of, excluded=()):
+    for nm, r in res.items():
+        if nm in excluded or isinstance(r["base"], dict):
+            continue
+        for a_s, v in r["scaled"].items():
+            a = float(F(a_s))
+            exp = _times(r["base"], a ** r["k"])
+            if not _rel_same(v, exp):
+                bad("scale_equivariance", f"{nm} of a*X with a = 2^{round(math.log2(a))} is {str(v)[:90]} but a^{r['k']} times the result on X is {str(exp)[:90]} "
+                    "(exact power-of-two scaling of the whole data set; relative tolerance 1e-13)", entry_of(nm), ["amplitude:2^%d" % round(math.log2(a))])
+                break
+
+
+# --------------------------------------------------------------------------
 # generation
 # --------------------------------------------------------------------------
 
@@ -457,6 +505,22 @@ def gen_cases(rng: Rng, tier):
         es = [0, 50] + rng.sample(range(1, 50), N - 2)
         X = [[Fraction(rng.randint(-8, 8), 2 ** es[i]) for _ in range(L)] for i in range(N)]  # curves of very different amplitude
         yield dict(kind="noise", order=order, X=_S(X), ck="dynrange", perm=[2, 0, 3, 1], off="0", a="3", c="1", int=False, t=[rs(x) for x in _grid(rng, L)])
+    # structured, in every run: AMPLITUDE of the whole data set: a X for a = 2^-60 .. 2^60 with a mean level comparable to the spread;
+    # every estimator must be exactly homogeneous (degree 1: mean; degree 2: covariance, noise variance) and textbook relative to the data's own scale
+    for flavour in ("dense", "dense2d", "irregular-points", "irregular-nan", "multivariate"):
+        N, m = rng.randint(3, 6), rng.randint(6, 9)
+        X = [[Fraction(rng.randint(-6, 6) + 3 + (j % 3)) for j in range(m)] for _ in range(N)]
+        keep = [[True] * m for _ in range(N)]
+        if flavour.startswith("irregular"):
+            keep = [[(j + i) % 4 != 1 or j in (0, m - 1) for j in range(m)] for i in range(N)]
+        yield dict(kind="scale", flavour=flavour, t=[rs(x) for x in rng.grid(m, uniform=True)], X=_S(X), keep=keep, order=rng.randint(1, 3), ck="rand")
+    for a in (Fraction(1, 2 ** 60), Fraction(1, 2 ** 30), Fraction(2 ** 40)):
+        N, m = rng.randint(3, 8), rng.randint(3, 8)
+        X = [[a * (rng.randint(-6, 6) + 4) for _ in range(m)] for _ in range(N)]
+        perm = list(range(N))
+        rng.shuffle(perm)
+        yield dict(kind="meancov", t=[rs(x) for x in _grid(rng, m)], X=_S(X), perm=perm, ck="amplitude", a="100", c=[rs(a * rng.randint(-3, 3)) for _ in range(m)],
+                   off="0", int=False)
     # structured, in every run: MEMORY LAYOUT of the values (column-major, transposed table, strided slice of a finer table, negative
     # strides) for every estimator; the references are the exact model and per-curve estimates on contiguous copies of the logical values
     for lay in LAYOUTS:
@@ -754,6 +818,51 @@ def _impl_untouched(case):
     return out
 
 
+def _impl_scale(case):
+    from FDApy.representation.functional_data import MultivariateFunctionalData
+
+    t = _Fv(case["t"])
+    tf = fl(t)
+    X0 = np.array(fl(_Fm(case["X"])))
+    keep = case["keep"]
+    fl_ = case["flavour"]
+    order = case["order"]
+
+    def build(a):
+        X = X0 * float(a)  # exact: a is a power of two
+        if fl_ == "dense":
+            return _dense([t], X)
+        if fl_ == "dense2d":
+            m1 = 2 if X.shape[1] % 2 == 0 else 3
+            if X.shape[1] % m1:
+                X = X[:, : X.shape[1] - X.shape[1] % m1]
+            m2 = X.shape[1] // m1
+            return _dense([t[:m1], t[:m2]], X.reshape(-1, m1, m2))
+        if fl_ == "irregular-nan":
+            return _irregular([tf] * len(X), [[x if kp else float("nan") for x, kp in zip(r, k)] for r, k in zip(X.tolist(), keep)])
+        if fl_ == "irregular-points":
+            return _irregular([[u for u, kp in zip(tf, k) if kp] for k in keep], [[x for x, kp in zip(r, k) if kp] for r, k in zip(X.tolist(), keep)])
+        return MultivariateFunctionalData([_dense([t], X), _dense([t], (X[::-1] + float(a)).copy())])
+
+    vals = lambda r: np.asarray(r.values, dtype=float).tolist()  # noqa: E731
+    if fl_ == "dense":
+        ops = {"mean": (lambda f: vals(f.mean()), 1), "covariance": (lambda f: vals(f.covariance()), 2),
+               "covariance(center=False)": (lambda f: vals(f.covariance(center=False)), 2),
+               "noise_variance": (lambda f: float(f.noise_variance(order)), 2),
+               "covariance noise estimate": (lambda f: (f.covariance(), float(f._noise_variance_cov))[1], 2),
+               "mean(method_smoothing='LP')": (lambda f: vals(f.mean(method_smoothing="LP", bandwidth=0.5)), 1)}
+    elif fl_ == "dense2d":
+        ops = {"mean": (lambda f: vals(f.mean()), 1)}
+    elif fl_.startswith("irregular"):
+        ops = {"noise_variance": (lambda f: float(f.noise_variance(order)), 2),
+               "covariance(smooth=False, center=False)": (lambda f: vals(f.covariance(smooth=False, center=False)), 2),
+               "mean(LP)": (lambda f: vals(f.mean(method_smoothing="LP", bandwidth=0.5)), 1)}
+    else:
+        ops = {"noise_variance": (lambda f: [float(x) for x in f.noise_variance(order)], 2),
+               "mean": (lambda f: [vals(c) for c in f.mean().data], 1)}
+    return _sweep(build, ops)
+
+
 def _derivations(fd, fd2, ref, t):
     """Objects DERIVED from `fd` by other operations of the package (name -> object)."""
     from FDApy.representation.functional_data import DenseFunctionalData
@@ -948,6 +1057,8 @@ def _run_impl(case):
         out = _call(lambda: _impl_derived(case))
     elif kind == "untouched":
         out = _call(lambda: _impl_untouched(case))
+    elif kind == "scale":
+        out = _call(lambda: _impl_scale(case))
     elif kind == "covirr":
         tf = fl(_Fv(case["t"]))
         X = np.array(fl(_Fm(case["X"])))
@@ -1517,6 +1628,13 @@ def oracle(case, impl):
                         f"estimate {v} is not the mean {exp} over ALL curves of the per-curve estimates {per} (too-short curves count 0)",
                         "IrregularFunctionalData.noise_variance")
         _state_violations(impl["states"], bad, lambda nm: "IrregularFunctionalData." + nm.split("(")[0])
+    elif kind == "scale":
+        cls = {"dense": "DenseFunctionalData", "dense2d": "DenseFunctionalData", "irregular-points": "IrregularFunctionalData",
+               "irregular-nan": "IrregularFunctionalData", "multivariate": "MultivariateFunctionalData"}[case["flavour"]]
+        if "error" in impl:
+            bad("runs", f"amplitude sweep on {case['flavour']} data raised {impl['error']}: {impl.get('msg')}", cls)
+            return vs
+        _sweep_violations(impl, bad, lambda nm: cls + "." + nm.split("(")[0].split(" ")[0])
     elif kind == "untouched":
         cls = {"dense": "DenseFunctionalData", "irregular-points": "IrregularFunctionalData", "irregular-nan": "IrregularFunctionalData",
                "multivariate": "MultivariateFunctionalData"}[case["flavour"]]
